@@ -34,7 +34,7 @@ echo "rc=$? $(( $(date +%s)-s0 ))s" > $V/work/coqchk_C01_norec.res
   echo "-admit Elfi.Proofs.C01_Estimator (the Flocq/Interval proof of the unbounded estimator theorem; its full coqchk takes"
   echo "hours: the outcome of the separate attempt is at the end).  coqchk's -admit loads that module AND what it depends on"
   echo "without checking: of this development that is Sched/Reject.v (the C01 model), which the runs for C04, C07 and C12 re-check"
-  echo "(they import it); the other proof files of C01 (C01_Reject, C01_Sorting, C01_History, C01_OkMeaning) are checked in the C01 run."
+  echo "(they import it); the other proof files of C01 (C01_Reject, C01_Sorting, C01_History, C01_OkMeaning, C01_ModelOk) are checked in the C01 run."
   echo
   for i in $(seq -w 1 20); do
     f=$V/work/coqchk_Elfi.Properties.C$i.log
